@@ -48,6 +48,7 @@ MChg(m, f, t, attrs, init) == [Blank EXCEPT !.k = "Chg", !.m = m, !.f = f,
 MDel(m, f)       == [Blank EXCEPT !.k = "Del", !.m = m, !.f = f]
 MRenF(m, f, g)   == [Blank EXCEPT !.k = "RenF", !.m = m, !.f = f, !.of = f, !.nf = g]
 MMetaUT(m, v)    == [Blank EXCEPT !.k = "Meta", !.m = m, !.prop = "unique_together", !.val = v]
+MMetaIT(m, v)    == [Blank EXCEPT !.k = "Meta", !.m = m, !.prop = "index_together", !.val = v]
 MMetaIdx(m, v)   == [Blank EXCEPT !.k = "Meta", !.m = m, !.prop = "indexes", !.ival = v]
 MMetaCons(m, v)  == [Blank EXCEPT !.k = "Meta", !.m = m, !.prop = "constraints", !.ival = v]
 TableOf(m)       == "t_" \o m
@@ -133,6 +134,13 @@ Start(id) ==
                             g |-> Field("Int", EmptyDict),
                             h |-> Field("Int", D1("null", TRUE))], <<>>)
                   EXCEPT !.cons = <<CkG, UqFG, UqCond>>]]
+    [] id = 12 ->         \* Meta.index_together: a two-column entry and a one-column entry
+        [A |-> WithIt(Model("A", [id |-> IdField,
+                                  f |-> Field("Char", D1("max_length", 10)),
+                                  g |-> Field("Int", D1("null", TRUE))], <<>>),
+                      << <<"f", "g">>, <<"g">> >>),
+         B |-> Model("B", [id |-> IdField,
+                           f |-> Field("Int", EmptyDict)], <<>>)]
     [] id = 8 ->          \* A declares a many-to-many relation to B
         [A |-> Model("A", [id |-> IdField,
                            f |-> Field("Char", D1("max_length", 10)),
@@ -242,6 +250,16 @@ Alphabet ==
           \* (g, f), not (f, g): a unique_together over the very columns of uq_fg would be a
           \* second, indistinguishable unique index
           MMetaUT("A", << <<"g", "f">> >>), MSQL }
+    [] AlphaId = 13 ->     \* Meta.index_together next to rebuilds, renames and deletions on the same table
+        { MAdd("A", "h", "Int", D1("null", TRUE), None),
+          MAdd("A", "h", "Char", D1("max_length", 10), "i"),
+          MChg("A", "f", None, D1("max_length", 20), None),
+          MChg("A", "g", None, D1("null", FALSE), "i"),
+          MChg("A", "g", None, D1("db_index", TRUE), None),
+          MDel("A", "h"), MRenF("A", "f", "h"), MRenF("A", "g", "k"),
+          MMetaIT("A", <<>>), MMetaIT("A", << <<"f", "g">> >>), MMetaIT("A", << <<"g">>, <<"f", "g">> >>),
+          MMetaIT("A", << <<"g", "f">>, <<"f">> >>), MMetaIT("A", << <<"f", "h">> >>),
+          MMetaUT("A", << <<"f", "g">> >>), MRenM("A", "C"), MSQL }
     [] AlphaId = 12 ->     \* constraints REDEFINED under the name they already have, alone and next to
                            \* other changes of the same table
         { MMetaCons("A", <<CkH, UqFG, UqCond>>), MMetaCons("A", <<CkG, UqGF, UqCond>>),
@@ -663,7 +681,7 @@ Plan(ms, sig, curModel, g, acc) ==
                       [acc EXCEPT !.haz = @ \cup g.haz])
             ELSE LET same == curModel = mu.m
                      gs   == IF same THEN [g EXCEPT !.cnt = 0] ELSE [G0 EXCEPT !.haz = g.haz]
-                     tix  == sig[mu.m].ut # <<>> \/ sig[mu.m].idx # <<>>
+                     tix  == sig[mu.m].ut # <<>> \/ sig[mu.m].idx # <<>> \/ It(sig[mu.m]) # <<>>
                      g1   == OpsFold(OpsOf(mu, sig), gs, tix)
                      stale == mu.k \in {"Meta", "Add", "Chg", "Del"}
                               /\ ((~StateFollowsTableRename /\ sig[mu.m].table \in acc.ren)
@@ -734,7 +752,7 @@ Extend(mu) ==
                                   \A fn \in DOMAIN cur[mn].fields :
                                      cur[mn].fields[fn].rel # mu.m)
           \* unique_together only ever names fields the model has
-          /\ ((mu.k = "Meta" /\ mu.prop = "unique_together")
+          /\ ((mu.k = "Meta" /\ mu.prop \in {"unique_together", "index_together"})
                 => \A i \in 1..Len(mu.val) : SeqSet(mu.val[i]) \subseteq DOMAIN cur[mu.m].fields)
           \* Meta.indexes only ever names fields the model has (the simulation
           \* does not check this; SQL generation raises FieldDoesNotExist)
@@ -787,7 +805,7 @@ MetaNamesMissing(ms, sig) ==
     IF ms = <<>> THEN FALSE
     ELSE LET mu == Head(ms)
              r  == Sim(mu, sig)
-             names == IF mu.prop = "unique_together" THEN UNION { SeqSet(mu.val[i]) : i \in 1..Len(mu.val) }
+             names == IF mu.prop \in {"unique_together", "index_together"} THEN UNION { SeqSet(mu.val[i]) : i \in 1..Len(mu.val) }
                       ELSE UNION { SeqSet(mu.ival[i].fields) : i \in 1..Len(mu.ival) }
          IN \/ /\ mu.k = "Meta" /\ mu.m \in DOMAIN sig
                /\ ~(names \subseteq DOMAIN sig[mu.m].fields)
@@ -812,8 +830,33 @@ IndexNameReuse(ms, sig, freed) ==      \* freed: <<model, old field name>> of re
          IN hit \/ (r.ok /\ IndexNameReuse(Tail(ms), r.sig, fr))
 
 (* sequences on which a known weakness of the SQLite lowering can show *)
+(* The same index declared twice: two declarations of one model (a field's own db_index / unique, a
+   unique_together / index_together / Meta.indexes / unique-constraint entry) that cover the same column
+   list with the same uniqueness and condition.  Django creates one index per declaration; Django
+   Evolution finds "the" index of a column list by its columns (DatabaseState.find_index) and therefore
+   creates only one and drops whichever it meets. *)
+FieldDecls(ms) == { <<<<f>>, (Get(ms.fields[f].attrs, "unique", FALSE) = TRUE \/ ms.fields[f].ftype = "O2O"), None>>
+                      : f \in { x \in DOMAIN ms.fields : Indexed(ms.fields[x])
+                                                          /\ Get(ms.fields[x].attrs, "primary_key", FALSE) # TRUE } }
+TableDecls(ms) ==
+    [i \in 1..Len(ms.ut) |-> <<ms.ut[i], TRUE, None>>]
+    \o [i \in 1..Len(ms.idx) |-> <<ms.idx[i].fields, FALSE, ms.idx[i].cond>>]
+    \o [i \in 1..Len(It(ms)) |-> <<It(ms)[i], FALSE, None>>]
+    \o SelectSeq([i \in 1..Len(ms.cons) |-> <<ms.cons[i].fields, TRUE, ms.cons[i].cond, ms.cons[i].kind>>],
+                  LAMBDA c : c[4] = "unique")
+DeclaredTwice(ms) ==
+    LET T == TableDecls(ms)
+        key(c) == <<c[1], c[2], c[3]>>
+    IN \/ \E i, j \in 1..Len(T) : i < j /\ key(T[i]) = key(T[j])
+       \/ \E i \in 1..Len(T) : key(T[i]) \in FieldDecls(ms)
+RECURSIVE DeclaredTwiceAlong(_, _)
+DeclaredTwiceAlong(ms, sig) ==
+    (\E mn \in DOMAIN sig : DeclaredTwice(sig[mn]))
+    \/ (ms # <<>> /\ LET r == Sim(Head(ms), sig) IN r.ok /\ DeclaredTwiceAlong(Tail(ms), r.sig))
+
 Hazards == PlanOpt.haz \cup PlanInd.haz \cup PlanTwo.haz
            \cup (IF IndexNameReuse(seq, Sig0, {}) THEN {"index-name-reused-after-rename"} ELSE {})
+           \cup (IF DeclaredTwiceAlong(seq, Sig0) THEN {"index-declared-twice"} ELSE {})
            \* Extend only admits ChangeMetas naming existing fields: if the OPTIMISED list has one
            \* that does not, the optimiser removed (or renamed away) the field under it, e.g.
            \* [AddField(h), ChangeMeta(unique_together, [(f, h)]), DeleteField(h)]
